@@ -4,13 +4,17 @@ EXTENDS RunTest
 MCUndoOf(a) == "undo:" \o a
 MCGatherOf(f) == "fxgather:" \o f
 MCCleanOf(f) == "fxclean:" \o f
+\* nested: f_nest (parent + child, fine), f_nestbad (the CHILD's setUp fails), f_nestcr (the child's cleanUp raises)
 \* fixtures: f_ok (detail "fxd"), f_tb (detail named "traceback": collides with generated names),
 \*           f_bad (setUp fails after adding detail "fxd"), f_cr (cleanUp raises an error)
-MCFixtureSetUpFails(f) == f = "f_bad"
+MCFixtureSetUpFails(f) == f \in {"f_bad", "f_nestbad"}
+MCFixtureFailCount(f) == IF f = "f_nestbad" THEN 3 ELSE 2
 MCFixtureGatherRaises(f) == f = "f_gr"
-MCFixtureCleanKind(f) == IF f = "f_cr" THEN "err" ELSE None
+MCFixtureCleanKind(f) == IF f \in {"f_cr", "f_nestcr"} THEN "err" ELSE None
 MCFixtureDetails(f) == CASE f = "f_tb" -> {Name("traceback", 0)}
                          [] f = "f_two" -> {Name("traceback", 0), Name("traceback", 1)}
+                         \* a fixture that uses a child fixture: its details are its own + the child's (renamed)
+                         [] f \in {"f_nest", "f_nestbad", "f_nestcr"} -> {Name("fxd", 0), Name("fxd", 1)}
                          [] OTHER -> {Name("fxd", 0)}
 \* mismatches: m0 carries no details, m1 a detail "diff", m2 details named "traceback" and "Failed expectation"
 MCMismatchDetails(m) == CASE m = "m0" -> {}
